@@ -123,9 +123,9 @@ def call_sir(EoN, name, gc, kw):
     return EoN.fast_SIR(gc.G, 1.0, 1.0, **kw)
 
 
-def sir_graph(rng, name):
+def sir_graph(rng, name, n=None):
     kind = rng.choice(['perm', 'str', 'tuple', 'mixed'])
-    gc = R.gen_graph(rng, nmax=9, nmin=2, kind=kind)
+    gc = R.gen_graph(rng, nmax=n or 9, nmin=n or 2, kind=kind)
     if name == 'fast_SIR_weighted':
         for u, v in gc.G.edges(): gc.G.edges[u, v]['w5'] = rng.choice([0.5, 1.0, 2.0])
     return gc, kind
@@ -254,8 +254,9 @@ def c05_rho(EoN, rng, stats):
     import numpy as np
     lines = []; metas = []; bad = []
     for name in SIR_SIMS:
-        for rho in (0.25, 0.5, 0.3, 1.0, 0.0, 0.125, 0.375):
-            gc, kind = sir_graph(rng, name)
+        # N*rho a half-integer (round half to even: 5/2 -> 2, 3/2 -> 2, 1/2 -> 0) and ordinary cases
+        for rho, nn in ((0.5, 5), (0.5, 3), (0.25, 6), (0.25, 2), (0.125, 4), (0.375, 4), (0.3, 5), (1.0, 4), (0.0, 3), (0.5, 7)):
+            gc, kind = sir_graph(rng, name, nn)
             N = len(gc.order)
             exp = int(round(F(N) * F(rho)))            # exact round-half-even
             seed = rng.randrange(10 ** 6); pyrandom.seed(seed); np.random.seed(seed)
